@@ -94,10 +94,11 @@ let model = function
     let st = ref (init_st !d) in
     let outs = ref [] in
     List.iter (fun s ->
+        if s = "mc" then () else
         let arg = String.sub s 2 (String.length s - 2) in
         match s.[0] with
         | 'e' -> e := parse_env arg
-        | 'd' -> d := parse_decl arg; st := init_st !d
+        | 'd' | 'M' -> d := parse_decl arg; st := init_st !d
         | 'a' -> let (st', r) = parse !d !e !st (strs_of_wire arg) in
                  st := st';
                  outs := (obs_res r ^ " # " ^ obs_res (snd (parse !d !e (init_st !d) (strs_of_wire arg)))) :: !outs
@@ -154,10 +155,11 @@ let oracle case obs =
     let d = ref (parse_decl dw) and e = ref (parse_env ew) in
     let obss = ref (split_obs obs) in
     List.for_all (fun s ->
+        if s = "mc" then true else
         let arg = String.sub s 2 (String.length s - 2) in
         match s.[0] with
         | 'e' -> e := parse_env arg; true
-        | 'd' -> d := parse_decl arg; true
+        | 'd' | 'M' -> d := parse_decl arg; true
         | 'a' -> (match !obss with
                   | [] -> false
                   | o :: rest ->
